@@ -587,6 +587,11 @@ func reifyMergeValue(
 		if err := tryValidate(old); err != nil {
 			return reflect.Value{}, raiseValidation(val.Context(), val.meta(), "", err)
 		}
+		if oldValue.Kind() == reflect.Interface && oldValue.Type().NumMethod() > 0 {
+			// a field of an interface type: it keeps the implementation it holds,
+			// which was unpacked into in place
+			return oldValue, nil
+		}
 		return old, nil
 	}
 
